@@ -63,6 +63,22 @@ let dump_db (c : (n list * n list) list) =
 let snap_tok (w : (n * (n list * n list) list) list) =
   let l = List.sort (fun (a, _) (b, _) -> Z.compare (z_of_n a) (z_of_n b)) w in
   "S:" ^ String.concat ";" (List.map (fun (n, c) -> name_tok n ^ "=" ^ dump_db c) l)
+let pre_tok fk (w : (n * (n list * n list) list) list) =
+  let l = List.sort (fun (a, _) (b, _) -> Z.compare (z_of_n a) (z_of_n b)) w in
+  "Q:" ^ String.concat ";" (List.map (fun (n, c) ->
+    name_tok n ^ "=" ^ dump_db (List.filter (fun (k, _) -> k <> fk) c)) l)
+(* expected snapshot of a flush: the pre-flush user contents of the databases still open after it,
+   plus the clean mark under the flush-ID key *)
+let expected_snap fkh id (pre : (string * string) list) (post : (string * string) list) =
+  let mark = "00" ^ (if id = "-" then "" else id) in
+  let hk k = if k = "-" then "" else k in
+  List.map (fun (n, _) ->
+    let d = (match List.assoc_opt n pre with Some d -> d | None -> "?") in
+    let es = (if d = "" then [] else String.split_on_char ',' d) in
+    let es = List.map (fun e -> match String.index_opt e ':' with
+      | Some i -> (String.sub e 0 i, e) | None -> (e, e)) es in
+    let es = List.sort (fun (a, _) (b, _) -> compare (hk a) (hk b)) ((fkh, fkh ^ ":" ^ mark) :: es) in
+    (n, String.concat "," (List.map snd es))) post
 let parse_snap t : (string * string) list =
   let body = String.sub t 2 (String.length t - 2) in
   if body = "" then [] else
@@ -71,7 +87,7 @@ let parse_snap t : (string * string) list =
     | None -> (e, "")) (String.split_on_char ';' body)
 
 (* the property on one data set: durable log, verdict per prefix, (completion position, id hex, snapshot) per flush *)
-let spec_check ?(any_pos = false) (log : dop list) (verdicts : string list) (flushes : (int * string * (string * string) list) list) =
+let spec_check ?(any_pos = false) ?(expected = (fun (_ : int) -> (None : string option))) (log : dop list) (verdicts : string list) (flushes : (int * string * (string * string) list) list) =
   let why = ref "" in
   let ok = ref true in
   let fail s = if !ok then (ok := false; why := s) in
@@ -80,13 +96,20 @@ let spec_check ?(any_pos = false) (log : dop list) (verdicts : string list) (flu
     if !ok then begin
       let w = crash log (nat_of_int k) in
       let dbs = List.map (fun (n, c) -> (name_tok n, dump_db c)) w in
-      if v = "N" then begin
+      (match expected k with
+       | Some e when v = "N" || (String.length v > 2 && String.sub v 0 2 = "O:" && String.sub v 2 (String.length v - 2) <> e) ->
+         fail (Printf.sprintf "crash point %d: Initialize with expected flush ID %s reports %s" k e v)
+       | _ -> ());
+      if expected k <> None && dbs = [] then ()
+      else if v = "N" then begin
         if List.exists (fun (_, d) -> d <> "") dbs then
           fail (Printf.sprintf "crash point %d: reports no flush but a surviving database is not empty" k)
       end else if String.length v > 2 && String.sub v 0 2 = "O:" then begin
         let m = String.sub v 2 (String.length v - 2) in
+        let first_after = List.fold_left (fun acc (p, _, _) ->
+          if p > k then (match acc with None -> Some p | Some q -> Some (min p q)) else acc) None flushes in
         let matches (pos, id, snap) =
-          (any_pos || pos <= k) && m = "00" ^ (if id = "-" then "" else id) &&
+          (pos <= k || (any_pos && first_after = Some pos)) && m = "00" ^ (if id = "-" then "" else id) &&
           List.for_all (fun (n, d) -> match List.assoc_opt n snap with
             | Some s -> s = d
             | None -> d = "") dbs in
@@ -95,6 +118,14 @@ let spec_check ?(any_pos = false) (log : dop list) (verdicts : string list) (flu
                   (String.concat ";" (List.map (fun (n, d) -> n ^ "=" ^ d) dbs)))
       end
     end) verdicts;
+  (* the other direction: a crash right after a completed flush is reported as that flush *)
+  let va = Array.of_list verdicts in
+  List.iter (fun (pos, id, _) ->
+    if !ok && expected 0 = None && pos < Array.length va && crash log (nat_of_int pos) <> [] then begin
+      let want = "O:00" ^ (if id = "-" then "" else id) in
+      if va.(pos) <> want then
+        fail (Printf.sprintf "crash point %d = right after flush %s returned: verdict %s, expected %s" pos id va.(pos) want)
+    end) flushes;
   !ok, !why
 
 let eval inp obs =
@@ -105,7 +136,7 @@ let eval inp obs =
   let og = split_on ";" obs in
   let sect name = (match List.find_opt (fun g -> match g with x :: _ -> x = name | [] -> false) og with
     | Some (_ :: t) -> t | _ -> []) in
-  let ilog = sect "LOG" and iverd = sect "V" and isnaps = sect "S" in
+  let ilog = sect "LOG" and iverd = sect "V" and isnaps = sect "S" and ipres = sect "Q" and ixverd = sect "X" in
   (* flush segments of the implementation's log *)
   let segs = ref [] and cur = ref None in
   List.iter (fun t ->
@@ -126,6 +157,8 @@ let eval inp obs =
     else [ names (is_mark "00") ] in
   (* ---- the model *)
   let mlog_toks = ref [] in
+  let mpres = ref [] in
+  let dead = ref false in
   let push t = mlog_toks := t :: !mlog_toks in
   let hop_of o = (match o with
     | ["O"; n] -> Some (HOpen (n_of_tok n))
@@ -139,17 +172,32 @@ let eval inp obs =
       Some (HFlush (bytes_of_hex id, os))
     | _ -> None) in
   let flush_ids = List.filter_map (fun o -> match o with ["F"; id] -> Some id | _ -> None) ops in
+  (* after a refused restart (Rerr) the rest of the history is not executed *)
+  let rec take n l = if n <= 0 then [] else match l with [] -> [] | x :: t -> x :: take (n - 1) t in
+  let flush_ids = take (List.length (List.filter (fun t -> t = "f") ilog)) flush_ids in
   (* flagged producer with two equal consecutive flush IDs: the reported flush may be the one in
      progress (theorem C25_flagged_crash_consistent_any_ids); otherwise it completed at or before k *)
+  let nfl = List.length flush_ids in
+  let expected_hex k =
+    let j = k mod (nfl + 1) in
+    if j < nfl then "00" ^ (let id = List.nth flush_ids j in if id = "-" then "" else id) else "00eeee" in
   let rec consec_distinct = function a :: (b :: _ as t) -> a <> b && consec_distinct t | _ -> true in
   let any_pos = (mode = "flag") && not (consec_distinct flush_ids) in
   let mlog, mrecs =
     if mode = "pool" then begin
       let st = ref run_init in
-      List.iter (fun o -> match hop_of o with
+      List.iter (fun o -> if !dead then () else if o = ["R"] then begin
+          let before = List.length !st.rs_log in
+          let w = crash !st.rs_log (nat_of_int before) in
+          let order = List.sort (fun a b -> Z.compare (z_of_n a) (z_of_n b)) (List.map fst w) in
+          (match restart_pool fk !st (nat_of_int before) order with
+           | Some s' -> st := s'; push "R"; List.iter (fun d -> push (tok_of_dop d)) (drop before s'.rs_log)
+           | None -> dead := true; push "Rerr")
+        end else match hop_of o with
         | None -> ()
         | Some hp ->
           let before = List.length !st.rs_log in
+          (match hp with HFlush _ -> mpres := pre_tok fk !st.rs_spec.sp_dbs :: !mpres | _ -> ());
           st := run_step fk scale !st hp;
           let fresh = drop before !st.rs_log in
           (match hp with HFlush _ -> push "F" | _ -> ());
@@ -158,10 +206,18 @@ let eval inp obs =
       !st.rs_log, !st.rs_recs
     end else begin
       let st = ref frun_init in
-      List.iter (fun o -> match hop_of o with
+      List.iter (fun o -> if !dead then () else if o = ["R"] then begin
+          let before = List.length !st.fr_log in
+          let w = crash !st.fr_log (nat_of_int before) in
+          let order = List.sort (fun a b -> Z.compare (z_of_n a) (z_of_n b)) (List.map fst w) in
+          (match restart_flagged fk !st (nat_of_int before) order with
+           | Some s' -> st := s'; push "R"; List.iter (fun d -> push (tok_of_dop d)) (drop before s'.fr_log)
+           | None -> dead := true; push "Rerr")
+        end else match hop_of o with
         | None -> ()
         | Some hp ->
           let before = List.length !st.fr_log in
+          (match hp with HFlush _ -> mpres := pre_tok fk !st.fr_spec.sp_dbs :: !mpres | _ -> ());
           st := frun_step fk !st hp;
           let fresh = drop before !st.fr_log in
           (match hp with HFlush _ -> push "F" | _ -> ());
@@ -182,29 +238,61 @@ let eval inp obs =
     if it = canon || List.length w > 6 then canon
     else if List.exists (fun p -> cres_tok (check_synced fk p) = it) (perms w) then it else canon) in
   let mverd_sorted = List.rev !mverd_sorted in
+  let ixverd_a = Array.of_list ixverd in
+  let mxverd_sorted = ref [] in
+  let mxverd = List.init (nlog + 1) (fun k ->
+    let w = crash mlog (nat_of_int k) in
+    let w = List.sort (fun (a, _) (b, _) -> Z.compare (z_of_n a) (z_of_n b)) w in
+    let f = Some (bytes_of_hex (expected_hex k)) in
+    let canon = cres_tok (check_loop fk w f false) in
+    mxverd_sorted := canon :: !mxverd_sorted;
+    let it = if k < Array.length ixverd_a then ixverd_a.(k) else "" in
+    if it = canon || List.length w > 6 then canon
+    else if List.exists (fun p -> cres_tok (check_loop fk p f false) = it) (perms w) then it else canon) in
+  let mxverd_sorted = List.rev !mxverd_sorted in
   let msnaps = List.map (fun r -> snap_tok r.r_snap) mrecs in
-  let model_obs = ("LOG" :: List.rev !mlog_toks) @ [";"; "V"] @ mverd @ [";"; "S"] @ msnaps @ [";"; "R1"] in
+  let mpres = List.rev !mpres in
+  let model_obs = ("LOG" :: List.rev !mlog_toks) @ [";"; "V"] @ mverd @ [";"; "S"] @ msnaps @ [";"; "Q"] @ mpres @ [";"; "X"] @ mxverd @ [";"; "R1"] in
   (* ---- the property on the implementation's data *)
-  let idur = List.filter (fun t -> t <> "F" && t <> "f" && t <> "ferr") ilog in
+  let idur = List.filter (fun t -> t <> "F" && t <> "f" && t <> "ferr" && t <> "R" && t <> "Rerr") ilog in
   let spec_ok, why = (try
     let ilog_d = List.map dop_of_tok idur in
     (* completion positions = number of durable operations before each f marker *)
     let pos = ref [] and cnt = ref 0 in
     List.iter (fun t -> if t = "f" then pos := !cnt :: !pos
-                        else if t <> "F" && t <> "ferr" then incr cnt) ilog;
+                        else if t <> "F" && t <> "ferr" && t <> "R" && t <> "Rerr" then incr cnt) ilog;
     let pos = List.rev !pos in
     if List.mem "ferr" ilog then false, "Flush returned an error"
-    else if List.length pos <> List.length flush_ids || List.length isnaps <> List.length pos then
+    else if List.length pos <> List.length flush_ids || List.length isnaps <> List.length pos
+            || List.length ipres <> List.length pos then
       false, "number of completed flushes / snapshots differs from the number of F operations"
     else begin
-      let flushes = List.mapi (fun i p -> (p, List.nth flush_ids i, parse_snap (List.nth isnaps i))) pos in
-      spec_check ~any_pos ilog_d iverd flushes
+      (* the contents a database "had when that flush completed" = what the producer showed the user just
+         before the flush (+ the clean mark); the read path after the flush must show the same *)
+      let fkh = h fk in
+      let bad = ref "" in
+      let flushes = List.mapi (fun i p ->
+        let id = List.nth flush_ids i in
+        let post = parse_snap (List.nth isnaps i) and pre = parse_snap (List.nth ipres i) in
+        let exp = expected_snap fkh id pre post in
+        if exp <> post && !bad = "" then
+          bad := Printf.sprintf "flush %d (id %s): contents read through the producer after the flush [%s] differ from the contents before it plus the clean mark [%s]"
+                   (i + 1) id (String.concat ";" (List.map (fun (n, d) -> n ^ "=" ^ d) post))
+                   (String.concat ";" (List.map (fun (n, d) -> n ^ "=" ^ d) exp));
+        (p, id, exp)) pos in
+      if !bad <> "" then false, !bad else begin
+        let r1 = spec_check ~any_pos ilog_d iverd flushes in
+        if not (fst r1) then r1
+        else spec_check ~any_pos ~expected:(fun k -> Some (expected_hex k)) ilog_d ixverd flushes
+      end
     end
   with e -> false, "unparsable observation: " ^ Printexc.to_string e) in
   let m_ok, m_why =
     let flushes = List.mapi (fun i r -> (int_of_nat r.r_pos, (if r.r_id = [] then "-" else h r.r_id),
                                          parse_snap (List.nth msnaps i))) mrecs in
-    spec_check ~any_pos mlog mverd_sorted flushes in
+    let r1 = spec_check ~any_pos mlog mverd_sorted flushes in
+    if not (fst r1) then r1
+    else spec_check ~any_pos ~expected:(fun k -> Some (expected_hex k)) mlog mxverd_sorted flushes in
   let has p = List.exists p iverd in
   { default_verdict with model_obs; spec_ok = Some spec_ok; model_spec_ok = m_ok;
     nontrivial = has (fun v -> String.length v > 1 && v.[0] = 'O') && has (fun v -> v.[0] = 'E');
